@@ -25,7 +25,7 @@ IDEMPOTENT_OBJECT_CALLS = ("build", "simplify", "substitute", "nnf", "aig", "nor
                            "qelim_selfsub")
 
 
-def gen_call(tape, pool_size, term_of, ctx_symbols, richgen, ctx):
+def gen_call(tape, pool_size, term_of, ctx_symbols, richgen, ctx, exclude=()):
     """draw one call spec over pool formula indices"""
     from dsim import richgen as rg
     kinds = [(3, "simplify"), (3, "substitute"), (2, "free_vars"), (2, "atoms"), (1, "is_qf"), (2, "theory"),
@@ -33,7 +33,9 @@ def gen_call(tape, pool_size, term_of, ctx_symbols, richgen, ctx):
              (1, "cnf"), (1, "prenex"), (1, "aig"), (1, "get_type"), (2, "build"), (1, "fresh"),
              (1, "model_value"), (1, "parse_smtlib"), (1, "parse_hr"), (1, "qelim")]
     kinds = kinds + [(2, "substitute_shared"), (2, "parse_long"), (2, "foreign"), (1, "script_serialize"),
-                     (2, "resimplify"), (2, "model_value_shared"), (1, "factory")]
+                     (2, "resimplify"), (2, "model_value_shared"), (1, "factory"), (1, "register_dwf"),
+                     (1, "declare_freshlike"), (1, "serialize_custom")]
+    kinds = [(w, n) for w, n in kinds if n not in exclude]
     k = tape.weighted(kinds, "call.kind")
     i = tape.draw(pool_size, "call.formula")
     spec = {"call": k, "i": i}
@@ -55,6 +57,17 @@ def gen_call(tape, pool_size, term_of, ctx_symbols, richgen, ctx):
             except ValueError:
                 pass
         spec["update"] = pairs
+    if k == "register_dwf":
+        # the documented extension API: teach one long-lived service of the environment about the
+        # custom node type (registrations are history that legitimately counts)
+        spec["service"] = tape.choice(sorted(DWF_SERVICES), "dwf.service")
+    if k == "declare_freshlike":
+        # the user declares (if it does not exist yet) a symbol whose name a fresh-name template
+        # could produce later
+        spec["name"] = "FV%d" % tape.rint(2, 9, "freshlike.n")
+    if k == "serialize_custom":
+        spec["printer"] = tape.choice(["custom", "default", "custom"], "hr.printer")
+        spec["threshold"] = tape.choice([None, None, 2, 5], "hr.threshold")
     if k == "factory":
         # which solvers the environment's factory offers for a logic, before / after a generic
         # SMT-LIB solver is registered (the registrations are the only history that counts)
@@ -171,6 +184,13 @@ def perform(env, spec, f, term, user_symbols):
         return f.substitute(d)
     if k == "factory":
         return factory_call(env, spec)
+    if k == "register_dwf":
+        return register_dwf(env, spec)
+    if k == "declare_freshlike":
+        return declare_freshlike(env, spec)
+    if k == "serialize_custom":
+        pr = _shout_printer() if spec.get("printer") == "custom" else None
+        return ("hr-text", env.serializer.serialize(f, printer=pr, threshold=spec.get("threshold")))
     if k == "free_vars":
         return f.get_free_variables()
     if k == "atoms":
@@ -309,6 +329,41 @@ def perform(env, spec, f, term, user_symbols):
         cls = ShannonQuantifierEliminator if spec.get("algo") == "shannon" else SelfSubstitutionQuantifierEliminator
         return cls(env, BOOL_LOGIC).eliminate_quantifiers(f)
     raise ValueError("unknown call %r" % k)
+
+
+DWF_SERVICES = {"free_vars": ("FreeVarsOracle", "walk_simple_args"), "atoms": ("AtomsOracle", "walk_bool_op"),
+                "is_qf": ("QuantifierOracle", "walk_all"), "types": ("TypesOracle", "walk_combine")}
+_SHOUT = []
+
+
+def _shout_printer():
+    if not _SHOUT:
+        from pysmt.printers import HRPrinter
+
+        class ShoutPrinter(HRPrinter):
+            def walk_symbol(self, formula):
+                self.write("<%s>" % formula.symbol_name())
+        _SHOUT.append(ShoutPrinter)
+    return _SHOUT[0]
+
+
+def register_dwf(env, spec):
+    import pysmt.oracles as oracles
+    cls_name, fn_name = DWF_SERVICES[spec["service"]]
+    cls = getattr(oracles, cls_name)
+    if cls in env.dwf.get(bp.xnode_type(), {}):
+        return "already-registered"
+    env.add_dynamic_walker_function(bp.xnode_type(), cls, getattr(cls, fn_name))
+    return "registered"
+
+
+def declare_freshlike(env, spec):
+    import pysmt.typing as T
+    mgr = env.formula_manager
+    if spec["name"] in mgr.symbols:
+        return "exists"
+    mgr.Symbol(spec["name"], T.BOOL)
+    return "declared"
 
 
 FACTORY_LOGICS = ["QF_LIA", "QF_LRA", "QF_BV", "QF_UFLIRA", "LRA", "QF_AUFBV"]
